@@ -72,7 +72,11 @@ fn build_host(cache: bool, permissive: bool) -> (Arc<HostCollection>, Vec<Arc<At
                     vary_out(pref, class)
                 } else { (*pref, *status, *size, *hn, *hv, *stream) };
                 let (pref, status, size, hn, hv, stream) = (&vo.0, &vo.1, &vo.2, &vo.3, &vo.4, &vo.5);
-                let mut body = format!("p{idx}#{n};").into_bytes();
+                // a QueryMatters page is a function of path *and query*: the representation names the query it was
+                // computed for (so that an entry served for another query differs from the uncached server's answer)
+                // (not `/mix`: it declares Full for most queries, i.e. that its output does not depend on the query)
+                let rep = if *pref == "qm" { format!("p{idx}q{}", req.uri().query().unwrap_or("")) } else { format!("p{idx}") };
+                let mut body = format!("{rep}#{n};").into_bytes();
                 body.resize(*size, b'.');
                 let mut r = Response::new(Bytes::from(body));
                 *r.status_mut() = StatusCode::from_u16(*status).unwrap();
